@@ -640,7 +640,24 @@ func installFuncModels(m *Machine) {
 // installLineReader models the line-oriented read methods of *bufio.Reader (ReadString, ReadBytes,
 // ReadSlice, ReadLine) on top of next(), which yields the next line of the scripted input (with its
 // "\n", unless the input ends without one) and false at the end of the input.
+// peekRest, when set by the caller of installLineReader, returns the unread rest of the scripted input
+// (for (*bufio.Reader).Peek).
+var peekRest func(st *State) string
+
 func installLineReader(m *Machine, next func(st *State) (string, bool)) {
+	m.Hooks["(*bufio.Reader).Peek"] = func(m *Machine, st *State, call *ssa.CallCommon, args []Val) ([]Val, bool) {
+		n, ok := args[1].(int64)
+		if !ok || peekRest == nil {
+			return nil, false
+		}
+		rest := peekRest(st)
+		var e Val = nilV{}
+		if int(n) > len(rest) {
+			n = int64(len(rest))
+			e = eofVal
+		}
+		return []Val{&TupleV{E: []Val{byteSliceVal(st, []byte(rest[:n])), e}}}, true
+	}
 	delimited := func(asBytes bool) HookFn {
 		return func(m *Machine, st *State, call *ssa.CallCommon, args []Val) ([]Val, bool) {
 			if d, ok := args[1].(int64); !ok || d != '\n' {
